@@ -1,5 +1,6 @@
 #!/usr/bin/env python3
-"""Render seeded/RESULTS.tsv (written by tools/mutant_sweep.sh) as seeded/RESULTS.md."""
+"""Render seeded/RESULTS.tsv (written by tools/sweep.py) as seeded/RESULTS.md: one row per change, the result of the check of its
+own property (last run wins) and the other checks that were tried on it."""
 import json, os, collections
 root = '/verif/seeded'
 rows = collections.OrderedDict()
@@ -7,23 +8,32 @@ for line in open(os.path.join(root, 'RESULTS.tsv')):
     f = line.rstrip('\n').split('\t')
     if len(f) >= 5:
         rows[(f[0], f[1])] = f          # last run of (id, property) wins
+ids = sorted({k[0] for k in rows}, key=lambda x: (x.split('-')[0], int(x.split('-m')[1])))
 out = ["# Seeded changes and the checks that catch them", "",
        "Each change was written by an independent sub-agent that saw only the text of one property and a scratch worktree",
-       "(or ported by hand to the repaired code where noted in its meta.json), confirmed here (demo passes on the unchanged",
-       "tree, fails with the change; the 81 existing tests pass with the change), then applied to /repo, checked with the",
-       "quick tier of its property's check and undone (`tools/mutant_sweep.sh`).", "",
-       "| change | property | what was changed | needs | quick check | reason reported |", "|---|---|---|---|---|---|"]
+       "(three rounds; rounds 2 and 3 were told in one line each what had been tried before), confirmed here (demo passes on the",
+       "unchanged tree, fails with the change; the 81 existing tests pass with the change), then applied to a scratch worktree of",
+       "/repo and checked with the quick tier of its property's check (`tools/sweep.py`).", "",
+       "| change | property | what was changed | needs | quick check of its property | reason reported | other checks |", "|---|---|---|---|---|---|---|"]
 caught = 0
-for (mid, prop), f in rows.items():
+n = 0
+for mid in ids:
     meta = json.load(open(os.path.join(root, mid, 'meta.json')))
+    prop = meta['property']
+    own = rows.get((mid, prop))
+    if own is None:
+        continue
+    n += 1
     summ = (meta.get('summary') or '').replace('|', '/').replace('\n', ' ')[:230]
     need = (meta.get('needs_to_manifest') or '').replace('|', '/').replace('\n', ' ')[:200]
-    res = f[2]
-    if res == 'exit=1': caught += 1
-    out.append("| %s | %s | %s | %s | %s (%s) | %s |" % (mid, prop, summ, need, "**caught**" if res == 'exit=1' else res, f[3], f[4].replace('|', '/')))
-out += ["", "%d of %d caught by the quick check of their own property." % (caught, len(rows)), ""]
+    res = own[2]
+    if res == 'exit=1':
+        caught += 1
+    others = ", ".join("%s: %s" % (k[1], "caught" if v[2] == 'exit=1' else v[2]) for k, v in rows.items() if k[0] == mid and k[1] != prop)
+    out.append("| %s | %s | %s | %s | %s (%s) | %s | %s |" % (mid, prop, summ, need, "**caught**" if res == 'exit=1' else res, own[3], own[4].replace('|', '/'), others))
+out += ["", "%d of %d caught by the quick check of their own property." % (caught, n), ""]
 extra = os.path.join(root, 'NOTES.md')
 if os.path.exists(extra):
     out.append(open(extra).read())
 open(os.path.join(root, 'RESULTS.md'), 'w').write("\n".join(out) + "\n")
-print(caught, len(rows))
+print(caught, n)
